@@ -7,6 +7,7 @@ EXPLANATION = (
     "write; migration copies the WHOLE staged content with `?` strictly before the state becomes Real; Drop publishes the final state "
     "under the mutex on a single path; the consumer waits for that publication before polling and copies per state exactly like the "
     "writer; neither half is Clone/Copy and consuming methods take self by value.")
+EXPLANATION += " Since the rules were generalised: the writer's update/write/flush are evaluated on every (buffer state x mailbox x inmemory x failing I/O operation) with mocked sinks - one poll per non-Real state before every write, the whole staged content copied and errors propagated strictly before the state becomes Real, the caller's bytes forwarded once to the current sink."
 UNDECIDED = "the exhaustive interleaving claim (model checking is a different family); atomicity of AtomicCell::swap and Condvar semantics are trusted."
 ASSUMPTIONS = ["crossbeam AtomicCell::swap is atomic", "Mutex/Condvar semantics", "io::copy copies to end of stream"]
 OBLIGATIONS = [K.MAILBOX, K.WRITER_WRITE, K.WRITER_UPDATE, K.WRITER_DROP, K.CONSUMER, K.STAGING_TYPES, K.HANDOVER]
